@@ -61,6 +61,17 @@ def entries():
                "[v0, pick(ZOO_UNCONVERTIBLE, i)]", "[w]", covers=("raised",)))
     L.append(e("list.body.zoo", "a: int, i: int, j: int, v0: int, w: int", '("list_e", [E, %s, E], NOLEN)' % INT_A,
                "mkdictlist(j, v0, pick(ZOO_UNCONVERTIBLE, i))", "[w]", pre=["0 <= j <= 1"], covers=("raised",)))
+    L.append(e("list.body2.zoo", "a: int, b: int, i: int, j: int, v0: int, v1: int, w: int",
+               '("list_e", [E, %s, ("int", Nil, Nil, b), E], NOLEN)' % INT_A, "place3(j, pick(ZOO_UNCONVERTIBLE, i), v0, v1)", "[w, w]",
+               pre=["0 <= j <= 2"], covers=("raised",), timeout=120))
+    L.append(e("list.body2.relaxed", "a: int, j: int, v0: int, px: bool, v1: int, w: int",
+               '("list_e", [E, %s, ("dict", [("k", False, ("int", Nil, Nil, Nil))], True), E], NOLEN)' % INT_A,
+               "place3(j, v1, v0, mkdict(('k', True, v1), ('x', px, 0)))", "[w, {'k': w}]", pre=["0 <= j <= 2"], timeout=150, covers=("raised",)))
+    # ---- floats: products of two symbolic doubles inside isclose -> bug-hunting only
+    L.append(e("float.minmax", "mn: float, mx: float, v: float, w: float", '("float", Nil, mn, mx, Nil)', "v", "w",
+               pre=["mn == mn and mx == mx and v == v and w == w"], hunt=True, timeout=120))
+    L.append(e("float.at.max", "mx: float, w: float", '("float", Nil, Nil, mx, Nil)', "mx", "w", pre=["mx == mx and w == w"],
+               hunt=True, timeout=120, covers=("subst",)))
     # ---- dicts
     D = '("dict", [("a", False, %s), ("b", True, ("str", Nil, (Nil, k, Nil), Nil, Nil, Nil))], %%s)' % INT_A
     DP = "a: int, k: int, pa: bool, pb: bool, px: bool, va: int, vb: str, qa: bool, qb: bool, qx: bool, wa: int, wb: str"
